@@ -12,7 +12,7 @@ pub fn meta(tier: &str) -> CheckMeta {
     let (n, cap) = params(tier);
     CheckMeta {
         id: "C14", level: "model_checking",
-        rule: "E-box over token sets x strings. Token menu over {a,b,c}: literals a ab abc b bc; patterns a+ ab* [ab]+ a|bc a?b a{2,3} [^a\\s]+ \\p{L}+ and ab with the flag i; each plain or wrapped in token(prec(p,.)) with p in {-1,1}. Families: (i) token soup repeat(choice(t..)) for every ordered pair of menu variants (39x39) and every ordered triple of distinct plain items; (ii) two-context grammars choice(seq('x',A,B), seq('y',C)) for every ordered triple of distinct plain items (validity depends on the parse state); (iii) keyword grammars (word token [a-c]+ with keywords ab, abc, optional third keyword); each with extras in {none, space}; (iv) regex structure: every regular expression of nesting depth <= 2 over the atoms a, b, [ab] with postfix ? * + {0,1} {0,2} {1,2} {2} {2,}, concatenation and alternation, plus the depth-3 shapes (atom next to a quantified atom) combined with every small expression (quick) or every expression of depth <= 1 (thorough); those matching the empty string are removed, sixteen per grammar behind distinct prefix characters, against every string over {a,b}: accepted exactly when the `regex` crate matches the whole string. Inputs: every string over {a,b,c,space} (plus e-acute where a Unicode class is present) up to the length bound. Oracle: a reference tokenizer built on the `regex` crate (independent of the generator's NFA), applying the documented order among the tokens valid at the position: lexical precedence, longest match, string over pattern, earlier definition; keyword only if the whole word equals it. If the reference tokenization exists, the parse must be error-free with exactly that leaf sequence (kinds and byte ranges); otherwise the parse must report an error. Non-trivial = (grammar, input) pairs where at least two tokens match at some position.",
+        rule: "E-box over token sets x strings. Token menu over {a,b,c}: literals a ab abc b bc; patterns a+ ab* [ab]+ a|bc a?b a{2,3} [^a\\s]+ \\p{L}+ and ab with the flag i; each plain or wrapped in token(prec(p,.)) with p in {-1,1}. Families: (i) token soup repeat(choice(t..)) for every ordered pair of menu variants (39x39) and every ordered triple of distinct plain items; (ii) two-context grammars choice(seq('x',A,B), seq('y',C)) for every ordered triple of distinct plain items (validity depends on the parse state); (iii) keyword grammars (word token [a-c]+ with keywords ab, abc, optional third keyword); each with extras in {none, space}; (iv) regex structure: every regular expression of nesting depth <= 2 over the atoms a, b, [ab] with postfix ? * + {0,1} {0,2} {1,2} {2} {2,}, concatenation and alternation, plus the depth-3 shapes (atom next to a quantified atom) combined with every small expression (quick) or every expression of depth <= 1 (thorough); those matching the empty string are removed, sixteen per grammar behind distinct prefix characters, against every string over {a,b}: accepted exactly when the `regex` crate matches the whole string. Inputs: every string over {a,b,c,space} (plus e-acute where a Unicode class is present) up to the length bound. Oracle: a reference tokenizer built on the `regex` crate (independent of the generator's NFA), applying the documented order among the tokens valid at the position: lexical precedence, longest match, string over pattern, earlier definition; keyword only if the whole word equals it. If the reference tokenization exists, the parse must be error-free with exactly that leaf sequence (kinds and byte ranges); otherwise the parse must report an error. (v) ordered pairs (thorough: triples) of seven tokens over large Unicode classes (L, Lu, Ll, N, a negated class), strings of <=4 over {a A e-acute E-acute 1 ! ? space}. Non-trivial = (grammar, input) pairs where at least two tokens match at some position.",
         assumptions: vec!["the documented five-rule order (docs/src/creating-parsers/3-writing-the-grammar.md, 'Conflicting tokens') is the specification".into()],
         exhaustive: true,
         bounds: json!({"max_input_chars": n, "grammars_cap_per_family": cap}),
